@@ -74,7 +74,7 @@ def validate(ctx, recs):
         r = recs[idx]
         if info.get("genbug"):
             raise Machinery("generator produced a play outside the property's domain: %s" % json.dumps(info)[:600])
-        fails.append(Failure(signature(r, info), describe(r, info), {"family": "player", "record": {k: r[k] for k in ("ev", "id", "mode", "file", "sel", "ports", "feat")}}))
+        fails.append(Failure(signature(r, info), describe(r, info), {"family": "player", "record": {k: r[k] for k in ("ev", "id", "mode", "file", "sel", "ports", "prior", "feat")}}))
     fails.sort(key=lambda f: len(f.payload["record"]["file"]))
     return fails
 
